@@ -185,6 +185,45 @@ pub fn run(lines: &[String]) -> Vec<String> {
                 }
                 logpos = log.len();
             }
+            "execs" => out.push(format!("execs {}", env::execs())),
+            "estimators" => {
+                use cachelito_core::MemoryEstimator as ME;
+                let mut chk = |name: &str, got: usize, want: usize| out.push(format!("est {} {} {} {}", name, got, want, if got == want { "ok" } else { "BAD" }));
+                let mut s1 = String::with_capacity(37); s1.push_str("ab");
+                chk("string", s1.estimate_memory(), 24 + s1.capacity());
+                let mut v: Vec<u32> = Vec::with_capacity(10); v.extend([1, 2, 3]);
+                chk("vec_u32", v.estimate_memory(), 24 + v.capacity() * 4);
+                let mut vs: Vec<String> = Vec::with_capacity(5); vs.push(String::with_capacity(11)); vs.push(String::with_capacity(3));
+                chk("vec_string", vs.estimate_memory(), 24 + vs.capacity() * 24 + vs.iter().map(|x| x.capacity()).sum::<usize>());
+                let os: Option<String> = Some(String::with_capacity(9));
+                chk("option_some", os.estimate_memory(), std::mem::size_of::<Option<String>>() + 9usize.max(os.as_ref().unwrap().capacity()));
+                let on: Option<String> = None;
+                chk("option_none", on.estimate_memory(), std::mem::size_of::<Option<String>>());
+                let ro: Result<String, u8> = Ok(String::with_capacity(13));
+                chk("result_ok", ro.estimate_memory(), std::mem::size_of::<Result<String, u8>>() + ro.as_ref().unwrap().capacity());
+                let re: Result<u8, String> = Err(String::with_capacity(6));
+                chk("result_err", re.estimate_memory(), std::mem::size_of::<Result<u8, String>>() + re.as_ref().unwrap_err().capacity());
+                let t2 = (String::with_capacity(21), 7u64);
+                chk("tuple2", t2.estimate_memory(), std::mem::size_of::<(String, u64)>() + t2.0.capacity());
+                let t3 = (1u8, String::with_capacity(4), vec![1u64, 2]);
+                chk("tuple3", t3.estimate_memory(), std::mem::size_of::<(u8, String, Vec<u64>)>() + t3.1.capacity() + t3.2.capacity() * 8);
+                let b = Box::new(String::with_capacity(15));
+                chk("box", b.estimate_memory(), 8 + 24 + b.capacity());
+                let a = std::sync::Arc::new(5u64);
+                chk("arc", a.estimate_memory(), 8 + 8);
+                let r = std::rc::Rc::new(5u32);
+                chk("rc", r.estimate_memory(), 8 + 4);
+                let st: &str = "hello";
+                chk("str", st.estimate_memory(), 16 + 5);
+                let sl: &[u32] = &[1, 2, 3];
+                chk("slice", sl.estimate_memory(), 16 + 12);
+                let ce = cachelito_core::CacheEntry::new(String::with_capacity(8));
+                chk("cacheentry", ce.estimate_memory(), std::mem::size_of::<cachelito_core::CacheEntry<String>>() + ce.value.capacity());
+            }
+            "sizes" => {
+                macro_rules! sz { ($($t:ty),*) => { $( out.push(format!("size {} = {}", stringify!($t).replace(' ', ""), std::mem::size_of::<$t>())); )* } }
+                sz!(u8, u16, u32, u64, usize, i32, i64, bool, char, f64, String, &str, std::time::Instant, Result<u64, u8>, Option<u64>, Option<usize>, (u64, u64), (u64, u64, u64), Vec<u8>, Box<u8>, Option<String>);
+            }
             "conc_thread" => {
                 // conc_thread <tid> <op...> ; ops separated by '/'
                 let tid: usize = t[1].parse().unwrap();
